@@ -48,7 +48,7 @@ import warnings
 from harness import common, rxsuite
 from harness.common import Model, canon
 
-FACTS = ("tables", "c19")
+FACTS = ("tables", "parser", "c02", "c06", "c19")
 RUNNERS = ["RX"]
 
 RULE = ("record lists (3-9 records over a small key pool so that keys repeat) printed in 7 formats "
